@@ -213,7 +213,7 @@ def session_c10(rng, fens):
                 if e.wait_for('readyok', 2500) is None:
                     e.log({'ev': 'deadline', 'what': 'readyok', 't': e.now()})
                     return e.events
-                e.send('position fen ' + rng.choice(fens))
+                e.send(rng.choice(['position fen ' + rng.choice(fens), 'ucinewgame', 'position startpos']))
                 e.send('stop')
             else:
                 e.send('go depth 1')
@@ -343,6 +343,11 @@ def systematic_lines():
     out += ['setoption name Hash value 16', 'setoption name value x', 'setoption value 3 name Hash', 'setoption name', 'setoption',
             'setoption name Move Overhead value', 'setoption value', 'setoption name name name', 'setoption value name', 'setoption name Clear Hash',
             'position', 'position fen', 'position startpos moves', 'position moves e2e4', 'position fen moves', 'uci', 'ucinewgame', 'stop', '', '   ']
+    # reader edge cases: tabs, runs of blanks, a very long line, non-ASCII, a NUL-free control character
+    out += ['\tisready\t', '   go    depth   1   ', 'x' * 20000, 'go ' + 'depth 1 ' * 2000, 'position startpos moves ' + 'e2e4 ' * 3000,
+            'isr\u00e9ady \u265e', 'stop\x0b', 'setoption name ' + 'A' * 5000 + ' value 1', 'go depth 0', 'go depth 255', 'go depth 256',
+            'go nodes 0', 'go nodes 18446744073709551615', 'go nodes 18446744073709551616', 'go movetime 340282366920938463463374607431768211455',
+            'go wtime 18446744073709551615 btime 18446744073709551615 winc 18446744073709551615 binc 18446744073709551615']
     return out
 
 
